@@ -151,7 +151,7 @@ Proof.
   - (* FCharStrs *)
     destruct (parse_strs (S (N.to_nat (lim - pos))) m pos lim []) as [[l p]| | |] eqn:E; try discriminate.
     cbn [bind fst snd] in H. injection H as <- _. cbn [wf_fval negb orb].
-    rewrite andb_true_r. eapply parse_strs_wf; eauto.
+    rewrite andb_true_r. exact (parse_strs_wf _ m pos lim [] l p Hm Hl eq_refl E).
   - (* FLen16 *)
     destruct (rd m pos lim 2) as [[h p1]| | |] eqn:E1; try discriminate. cbn [bind fst snd] in H.
     destruct (rd m p1 lim (of_be h)) as [[b p2]| | |] eqn:E2; try discriminate.
@@ -223,8 +223,8 @@ Proof.
   destruct f, x; try discriminate; cbn [short_rest_fields wf_fval] in *;
     try (rewrite Hx, (IH _ Hv Hr); reflexivity).
   - apply andb_true_iff in Hx as [Hs _]. cbn [negb orb]. rewrite Hs, (IH _ Hv Hr). reflexivity.
-  - apply orb_false_iff in Hr as [Hm Hr]. cbn [orb] in Hx. rewrite Hx, (IH _ Hv Hr).
-    apply Nat.ltb_ge in Hm. apply Nat.leb_le in Hm. rewrite Hm. reflexivity.
+  - apply orb_false_iff in Hr as [Hm Hr]. cbn [orb andb] in Hx |- *. rewrite (IH _ Hv Hr).
+    apply Nat.ltb_ge in Hm. apply Nat.leb_le in Hm. rewrite Hm, Hx. reflexivity.
 Qed.
 
 Theorem ctor_accepts_wf s v :
